@@ -94,6 +94,24 @@ func run(c *h.Ctx, cs Case) {
 			}
 		}
 	}
+	// history: the decision is about the arguments of THIS call. The same token object checked
+	// first with one set of arguments (through the hook), then with another, must give each
+	// time what a fresh token gives.
+	if cs.Inv.Hook != nil && !cs.Inv.Hook.Err {
+		noHook := chain.Decide(b, nil) // token's own args, same object, after the hook call
+		fresh := cs.Case
+		fresh.Inv.Hook = nil
+		if bf, err := chain.Build(fresh); err == nil {
+			if df := chain.Decide(bf, nil); df.Allowed != noHook.Allowed {
+				c.Fail("C03/history/decision-depends-on-earlier-call", "after a check through the hook (allowed=%v), the same token checked with its own arguments is allowed=%v, a fresh token allowed=%v\ncase: %+v", d.Allowed, noHook.Allowed, df.Allowed, cs)
+			}
+		}
+		again := chain.Decide(b, cs.Inv.Hook)
+		if again.Allowed != d.Allowed {
+			c.Fail("C03/history/decision-depends-on-earlier-call", "the same hook check repeated on the same token gives allowed=%v then %v", d.Allowed, again.Allowed)
+		}
+		c.P.Class("history:hook-then-own-args")
+	}
 	if cs.Inv.Hook != nil && cs.Inv.Hook.Err && d.Allowed {
 		c.Fail("C03/hook/error-ignored", "hook returned an error but the invocation was allowed")
 	}
